@@ -1064,16 +1064,105 @@ def const_table(m, name):
     return None
 
 
+def const_bytes(m, name):
+    """Byte image (list of 0..255 or None for bytes that are not integer data) of a constant global whose initialiser is made
+    of integers, arrays and structs; None if it is not constant or its layout is not known.  Struct members are laid out at
+    their natural alignment (capped at 8), which is what every target the library supports does for integer members."""
+    import re
+    g = m.globals.get(name)
+    if not g or not g.get("const") or "init" not in g:
+        return None
+
+    def size_align(ty, init):
+        mt = re.match(r"i(\d+)$", ty or "")
+        if mt:
+            n = max(1, int(mt.group(1)) // 8)
+            return n, min(n, 8)
+        return None
+
+    def flat(init):
+        """(bytes, alignment) of one initialiser"""
+        k = init.get("k")
+        ty = init.get("ty", "")
+        if k == "int":
+            sa = size_align(ty, init)
+            if sa is None:
+                return None
+            n, al = sa
+            return [(init["v"] >> (8 * j)) & 0xff for j in range(n)], al
+        if k == "cdata":
+            mt = re.match(r"\[(\d+) x i(\d+)\]", ty)
+            if not mt:
+                return None
+            w = int(mt.group(2)) // 8
+            out = []
+            for v in init["elems"]:
+                out += [(int(v) >> (8 * j)) & 0xff for j in range(w)]
+            return out, min(w, 8)
+        if k == "cagg":
+            parts = [flat(e) for e in init["elems"]]
+            if any(p_ is None for p_ in parts):
+                return None
+            is_array = ty.startswith("[")
+            packed = ty.startswith("<{") or "packed" in ty
+            out, al = [], 1
+            for b, a in parts:
+                a = 1 if packed else a
+                if not is_array:
+                    while len(out) % a:
+                        out.append(0)
+                out += b
+                al = max(al, a)
+            if not is_array:
+                while len(out) % al:
+                    out.append(0)
+            return out, al
+        return None
+    init = g["init"]
+    if init.get("k") == "zero":
+        return [0] * g.get("size", 0)
+    if init.get("k") == "cagg" and any(e.get("k") == "zero" for e in init["elems"]):
+        # zero elements of an array of aggregates: as large as their non-zero siblings
+        sib = [flat(e) for e in init["elems"] if e.get("k") != "zero"]
+        if not sib or any(x is None for x in sib) or len(set(len(b) for b, a in sib)) != 1:
+            return None
+        esz = len(sib[0][0])
+        out = []
+        for e in init["elems"]:
+            out += [0] * esz if e.get("k") == "zero" else flat(e)[0]
+        return out if len(out) == g.get("size", len(out)) else None
+    r = flat(init)
+    if r is None or len(r[0]) != g.get("size", len(r[0])):
+        return None
+    return r[0]
+
+
 def const_table_load(m, x, env):
     """Value of a load from a constant integer table with a concretely evaluable subscript; None if x is not such a load;
     raises NoValue if the subscript is out of range."""
     if x[0] != "ld":
         return None
     root, off, var = ptr_parts(x[1])
-    if root[0] != "g" or len(var) > 1:
+    if root[0] != "g":
         return None
-    t = const_table(m, root[1])
+    t = const_table(m, root[1]) if len(var) <= 1 else None
     if t is None:
+        # a table of structs (or any other constant aggregate of integers): read from its byte image
+        img = const_bytes(m, root[1])
+        if img is None:
+            return None
+        idx = off
+        for v_, sc in var:
+            i = eval_concrete(v_, env)
+            bits = expr_bits(v_) or 64
+            if i >> (bits - 1):
+                i -= 1 << bits
+            idx += i * sc
+        n = x[2]
+        if not (0 <= idx and idx + n <= len(img)):
+            raise NoValue(x)
+        return sum(img[idx + j] << (8 * j) for j in range(n))
+    if len(var) > 1:
         return None
     vals, w = t
     esz = w // 8
